@@ -30,6 +30,9 @@ META = dict(
 )
 
 DT = [torch.float32, torch.float16, torch.bfloat16]
+RANK_OF = {"bmm": [3], "conv2d": [4], "matmul": [2, 2, 3], "t": [1, 2, 2], "cross_entropy": [2], "linear_rev": [2]}
+REPEAT = {"bmm": 10, "matmul": 8, "linear": 8, "linear_rev": 6, "conv2d": 4, "cat2": 3, "stack2": 3, "where": 3, "lt": 3,
+          "copy_": 3}
 
 
 def crash_class(a, w, kind):
@@ -50,9 +53,12 @@ def crash_class(a, w, kind):
 def run_program(ctx, mon, oq, rng, wd, depth, names, directed=None):
     pool = programs.Pool(oq, rng, wd)
     shape = programs.rshape(rng)
+    if directed is not None and directed[0] in RANK_OF:
+        shape = programs.rshape(rng, int(rng.choice(RANK_OF[directed[0]])))
     if directed is not None and directed[1].startswith("w"):
         while len(shape) < 2 or min(shape[0], shape[-1]) < 2:
-            shape = programs.rshape(rng, int(rng.integers(2, 5)))
+            shape = programs.rshape(rng, int(rng.choice(RANK_OF[directed[0]])) if directed[0] in RANK_OF and
+                                    min(RANK_OF[directed[0]]) >= 2 else int(rng.integers(2, 5)))
     seq = []
     with torch.no_grad():
         base = [pool.fresh(shape) for _ in range(3)] + [pool.fresh(programs.rshape(rng, len(shape)))]
@@ -91,7 +97,7 @@ def run_program(ctx, mon, oq, rng, wd, depth, names, directed=None):
             for o in outs[:3]:
                 if isinstance(o, torch.Tensor) and not mon.is_tainted(o) and o.dtype in (torch.float32, torch.float16,
                                                                                          torch.bfloat16):
-                    if torch.isfinite(o.dequantize() if hasattr(o, "dequantize") else o).all():
+                    if torch.isfinite(o.dequantize() if hasattr(o, "qtype") else o).all():
                         pool.add(o, name)
     mon.step_info = None
     return seq
@@ -126,16 +132,17 @@ def run(ctx):
             for name in names:
                 for kind in kinds:
                     for lay in ("contiguous", "transposed"):
-                        k += 1
-                        if not ctx.mine(k):
-                            continue
-                        wd = DT[k % 3]
-                        if not ctx.case(dict(directed=name, kind=kind, layout=lay, dtype=str(wd))):
-                            continue
-                        seq = run_program(ctx, mon, oq, ctx.crng, wd, 2, names, directed=(name, kind, lay))
-                        ctx.count("directed_programs")
-                        if len(seq) >= 2 and any(s[2] == "q" for s in seq):
-                            ctx.nontrivial("d", tuple(seq))
+                        for rep in range(REPEAT.get(name, 1)):
+                            k += 1
+                            if not ctx.mine(k):
+                                continue
+                            wd = DT[k % 3]
+                            if not ctx.case(dict(directed=name, kind=kind, layout=lay, dtype=str(wd), rep=rep)):
+                                continue
+                            seq = run_program(ctx, mon, oq, ctx.crng, wd, 2, names, directed=(name, kind, lay))
+                            ctx.count("directed_programs")
+                            if len(seq) >= 2 and any(s[2] == "q" for s in seq):
+                                ctx.nontrivial("d", tuple(seq))
             for i in range(n_prog):
                 wd = DT[int(rng.integers(3))]
                 depth = int(rng.integers(1, 9))
